@@ -9,7 +9,7 @@ CLASS_LAYER = ['CliffordMap.to_state', 'StabilizerState.to_map/to_qutip/__init__
                'ghz_state', 'maximally_mixed_state', 'random_bit_state', 'random_pauli_state', 'identity_map', 'Pauli.to_qutip', 'paulis']
 TV_KERNELS = ['map_to_state', 'state_to_map', 'stabilizer_project', 'acq_mat', 'pauli_transform']
 BOUNDS = {'quick': 'valid maps with all signs N<=2 (duality, round trip); named constructors N<=3; stabilizer_state for every length 1<=L<=N, N<=3, strings and signs symbolic; dense export through the qutip stand-in N<=2 (including export - sign change - export histories)',
-          'thorough': 'duality for rotation-family maps N=3; dense export of stabilizer_state lists N<=2'}
+          'thorough': 'duality for constructed families at N=3 (arbitrary valid N=3 as stretch); stabilizer_state N=4 with L<=2'}
 OUTSIDE = 'dense export beyond N=2; qutip itself (replaced by an exact stand-in: textbook 2x2 matrices and Kronecker product)'
 ASSUMPTIONS = ['valid map / Inv state / commuting independent stabilizer lists as documented']
 STUBS = ['qutip.qeye/sigmax/sigmay/sigmaz/tensor and Qobj arithmetic -> exact matrices over Z[i]/2^k']
@@ -257,6 +257,11 @@ def jobs(tier):
             J.append(dict(harness=('c12', 'h_stabilizer_state'), params=dict(N=N, L=L), timeout_s=600, cost=5 * L * N))
             if L >= 2:
                 J.append(dict(harness=('c12', 'h_stabilizer_state'), params=dict(N=N, L=L, commuting=False), timeout_s=300))
+    if tier == 'thorough':
+        J.append(dict(harness=('c12', 'h_duality'), params=dict(N=3, r=None, family='embed1'), timeout_s=600, cost=30))
+        J.append(dict(harness=('c12', 'h_duality'), params=dict(N=3, r=None), timeout_s=600, wall_s=1500, cost=200, claimed=False, label='stretch:h_duality{"N": 3}'))
+        for L in (1, 2):
+            J.append(dict(harness=('c12', 'h_stabilizer_state'), params=dict(N=4, L=L), timeout_s=900, cost=100))
     for N in (1, 2):
         for r in range(N + 1):
             J.append(dict(harness=('c12', 'h_to_qutip'), params=dict(N=N, r=r), timeout_s=600, cost=30 * N))
